@@ -150,6 +150,13 @@ class TrioEventLoop(EventLoop):
             True if the scope was cancelled, False if it was cancelled already
             before invoking this function
         """
+        for entry in self._pending_tasks:
+            if entry[1] is scope:
+                # not started yet: the state of the scope cannot be read outside of trio.run(), drop the task instead
+                self._pending_tasks.remove(entry)
+                scope.cancel()
+                return True
+
         existed = not scope.cancel_called
         scope.cancel()
         return existed
